@@ -307,6 +307,189 @@ def eml(ds):
     return E("eml", attrs=[("packageId", "edi.1.1"), ("system", "https://pasta.edirepository.org")], kids=[ds])
 
 
+# ------------------------------------------------------------------ positions: every dispatched element under every ancestor chain the rules allow
+def _is_elem(item):
+    return isinstance(item, list) and len(item) == 3 and isinstance(item[0], str)
+
+
+def _is_choice(item):
+    return isinstance(item, list) and not _is_elem(item) and len(item) >= 3 and \
+        (item[-1] is None or isinstance(item[-1], int)) and isinstance(item[-2], int) and not isinstance(item[-1], bool)
+
+
+def _names_in(item):
+    if _is_elem(item):
+        return {item[0]}
+    out = set()
+    for sub in (item[:-2] if _is_choice(item) else item):
+        if isinstance(sub, list):
+            out |= _names_in(sub)
+    return out
+
+
+class RuleGraph:
+    """The live rule table as a graph element -> allowed child elements, with minimal-tree costs."""
+
+    def __init__(self):
+        from metapype.eml import rule as R
+        self.R = R
+        self.rules = {}
+        for el, rn in R.node_mappings.items():
+            if rn in R.rules_dict:
+                self.rules[el] = R.rules_dict[rn]
+        self.kids = {el: sorted(n for n in _names_in(r[1]) if n in self.rules) for el, r in self.rules.items()}
+        INF = 10 ** 9
+        self.cost = {el: INF for el in self.rules}
+        for _ in range(40):
+            changed = False
+            for el, r in self.rules.items():
+                c = 1 + min(10 ** 9, self._cost_item(r[1]) if r[1] else 0)
+                if c < self.cost[el]:
+                    self.cost[el] = c
+                    changed = True
+            if not changed:
+                break
+
+    def _cost_item(self, item):
+        if _is_elem(item):
+            return item[1] * self.cost.get(item[0], 10 ** 9)
+        if _is_choice(item):
+            if item[-2] == 0:
+                return 0
+            return item[-2] * min(self._cost_item(a) if not _is_elem(a) else max(1, a[1]) * self.cost.get(a[0], 10 ** 9) for a in item[:-2])
+        return self._cost_seq(item)
+
+    def _cost_seq(self, items):
+        return min(10 ** 9, sum(self._cost_item(i) for i in items))
+
+    # --- chains
+    def chains_to(self, start, target, max_len, cap=4000):
+        """simple paths start -> ... -> target (by increasing length), at most `cap` queue pops"""
+        from collections import deque
+        out, q, pops = [], deque([[start]]), 0
+        while q and pops < cap:
+            pth = q.popleft()
+            pops += 1
+            if pth[-1] == target and len(pth) > 1:
+                out.append(pth)
+                continue
+            if len(pth) >= max_len:
+                continue
+            for k in self.kids.get(pth[-1], []):
+                if k not in pth or k == target:
+                    q.append(pth + [k])
+        return out
+
+    # --- minimal valid tree containing a chain
+    def element(self, name, chain=(), bare_leaf=False):
+        """A smallest tree for `name` satisfying its rule; when `chain` is non-empty its first element is placed as a child
+        (at a position the rule allows) and the rest of the chain below it."""
+        r = self.rules.get(name)
+        if r is None:
+            return E(name)
+        from harness import rulelib as RL
+        if bare_leaf and not chain:
+            return E(name)
+        attrs = [(k, (spec[1] if len(spec) > 1 else "v")) for k, spec in r[0].items() if spec and spec[0] is True]
+        self._placed = False
+        kids = self._build_item(r[1], list(chain), bare_leaf) if r[1] else []
+        return E(name, RL.canonical_content(r), attrs, kids)
+
+    def _build_item(self, item, chain, bare_leaf):
+        forced = chain[0] if chain else None
+        if _is_elem(item):
+            n, lo, hi = item
+            out = []
+            count = lo
+            use_forced = forced == n and not self._placed and (hi is None or hi >= 1)
+            if use_forced:
+                count = max(lo, 1)
+            for i in range(count):
+                if use_forced and i == 0:
+                    self._placed = True
+                    placed_save = self._placed
+                    out.append(self.element(n, chain[1:], bare_leaf))
+                    self._placed = placed_save
+                else:
+                    save = self._placed
+                    out.append(self.element(n))
+                    self._placed = save
+            return out
+        if _is_choice(item):
+            alts, lo = item[:-2], item[-2]
+            out = []
+            n_occ = lo
+            if forced is not None and not self._placed:
+                for a in alts:
+                    if forced in _names_in(a):
+                        out += self._build_item([a[0], max(1, a[1]), a[2]] if _is_elem(a) else a, chain, bare_leaf)
+                        n_occ = max(0, lo - 1)
+                        break
+            if n_occ > 0:
+                best = min(alts, key=lambda a: self._cost_item([a[0], max(1, a[1]), a[2]]) if _is_elem(a) else self._cost_item(a))
+                for _ in range(n_occ):
+                    out += self._build_item([best[0], max(1, best[1]), best[2]] if _is_elem(best) else best, [], False)
+            return out
+        return self._build_seq(item, chain, bare_leaf)
+
+    def _build_seq(self, items, chain, bare_leaf):
+        out = []
+        for it in items:
+            out += self._build_item(it, chain if not self._placed else [], bare_leaf)
+        return out
+
+
+def chain_skeleton(chain, leaf):
+    """known-names-only tree: every ancestor has just the next chain element as its child"""
+    t = leaf
+    for name in reversed(chain[:-1]):
+        t = E(name, kids=[t])
+    return t
+
+
+def position_cases(ctx):
+    """Every dispatched element below every kind of ancestor chain the live rule table allows."""
+    from metapype.eml import evaluate
+    rng = ctx.rng
+    thorough = ctx.tier == "thorough"
+    g = RuleGraph()
+    keys = sorted(evaluate.rules)
+    for key in keys:
+        chains = []
+        for start in ("eml", "dataset"):
+            chains += g.chains_to(start, key, 9 if thorough else 8, cap=20000 if thorough else 6000)
+        if not chains:
+            ctx.count("positions:no_chain:" + key)
+            continue
+        chains.sort(key=len)
+        # distinct by the set of intermediate ancestors: every ancestor element that can occur above `key` is used at least once
+        chosen, seen_anc = [], set()
+        for c in chains:
+            new = set(c[1:-1]) - seen_anc
+            if new:
+                chosen.append(c)
+                seen_anc |= new
+        extra = [c for c in chains if c not in chosen]
+        rng.shuffle(extra)
+        chosen += chains[:3] + extra[: (40 if thorough else 8)]
+        ctx.count("positions:ancestors_covered:" + key, len(seen_anc))
+        done = set()
+        for c in chosen:
+            if tuple(c) in done:
+                continue
+            done.add(tuple(c))
+            # (a) known names only: bare chain, leaf without children (produces the element's warnings)
+            yield "position:bare:" + key + ":" + ">".join(c), chain_skeleton(c, E(key)), []
+            # (b) smallest tree the rules accept around the chain; leaf in its smallest valid form and as a bare element
+            for bare_leaf in (False, True):
+                try:
+                    tree = g.element(c[0], c[1:], bare_leaf)
+                except RecursionError:
+                    continue
+                if sum(1 for _ in preorder(tree)) <= 400:
+                    yield ("position:rule:" if not bare_leaf else "position:rule-bare-leaf:") + key + ":" + ">".join(c), tree, []
+
+
 # ------------------------------------------------------------------ case generation
 def full_dataset(rng, **over):
     """A rich, valid dataset; keyword arguments override single parts."""
@@ -1002,6 +1185,7 @@ def run(ctx):
     except Exception as e:  # the sample is part of the pinned repo; its absence is a broken tie, not a pass
         ctx.fail("tie:sample", f"tests/data/eml.xml could not be imported: {type(e).__name__}: {e}", {"kind": "broken-tie"}, concrete=False)
     all_cases += list(gen_cases(ctx))
+    all_cases += list(position_cases(ctx))
     for label, root, path in all_cases:
         assign_ids(root)
         res, snap_at, parent_name = impl_run(root, path)
